@@ -90,7 +90,19 @@ def css_violation(style, lists):
     return None
 
 
+# URI-valued attributes as the sanitizer documents them (frozen here: the oracle must not follow an edit of the module's table)
+URI_ATTRS_DEFAULT = frozenset([(None, n) for n in ("href", "src", "cite", "action", "longdesc", "poster", "background", "datasrc", "dynsrc", "lowsrc", "ping")]
+                              + [(XLINK, "href"), (XML, "base")])
+
+
 def default_lists():
+    from html5lib.filters import sanitizer as S
+    d = _default_lists_raw()
+    d["_uri_attrs_oracle"] = URI_ATTRS_DEFAULT
+    return d
+
+
+def _default_lists_raw():
     from html5lib.filters import sanitizer as S
     return {"allowed_elements": S.allowed_elements, "allowed_attributes": S.allowed_attributes, "allowed_css_properties": S.allowed_css_properties,
             "allowed_css_keywords": S.allowed_css_keywords, "allowed_svg_properties": S.allowed_svg_properties, "allowed_protocols": S.allowed_protocols,
@@ -101,7 +113,7 @@ def default_lists():
 def restricted_lists(mask_seed):
     """Deterministic sub-allow-lists: each list keeps the members whose stable hash passes a seed-dependent filter."""
     import zlib
-    base = default_lists()
+    base = _default_lists_raw()
     out = {}
     for i, (k, v) in enumerate(sorted(base.items())):
         mode = (mask_seed >> (2 * i)) & 3
@@ -130,7 +142,7 @@ def predicate(tokens_in, tokens_out, lists):
             for key, val in t["data"].items():
                 if key not in lists["allowed_attributes"]:
                     return "attribute", "attribute %r is not on the allow-list (element %s)" % (key, t["name"])
-                if key in lists["attr_val_is_uri"]:
+                if key in lists.get("_uri_attrs_oracle", lists["attr_val_is_uri"]):
                     scheme, rest = url_scheme(val)
                     if scheme is not None:
                         if scheme not in lists["allowed_protocols"]:
@@ -196,7 +208,7 @@ def check_case(case):
     with warnings.catch_warnings():
         warnings.simplefilter("ignore")
         try:
-            out = list(S.Filter(_snap(toks), **lists))
+            out = list(S.Filter(_snap(toks), **{k: v for k, v in lists.items() if not k.startswith("_")}))
         except Exception as e:
             return Verdict("fail", "sanitizer raised %s: %s on %s" % (type(e).__name__, short(str(e), 100), short(text, 200)), "exception:" + type(e).__name__, nontrivial=True)
     acts = set()
@@ -211,7 +223,7 @@ def check_case(case):
                 for k, v in t["data"].items():
                     if k not in lists["allowed_attributes"]:
                         acts.add("bad-attr")
-                    elif k in lists["attr_val_is_uri"] and url_scheme(v)[0] is not None:
+                    elif k in lists.get("_uri_attrs_oracle", lists["attr_val_is_uri"]) and url_scheme(v)[0] is not None:
                         acts.add("uri-with-scheme")
                     elif k == (None, "style"):
                         acts.add("style")
